@@ -72,7 +72,9 @@ C13Step(m, o) ==
                                "active-without-exactly-one-timer-per-enabled-periodic-task")
                         \cup V(~a1.active => Eff(a1, "Probe") = 0 /\ \A k \in Periodic : Eff(a1, k) = 0,
                                "inactive-instance-holds-an-effective-recurring-timer")
-                        \cup V((isTimer /\ o.env.ordered) => o.res = "Ok",
+                        \* (Err:Encode is the codec's verdict on a header that does not fit max_packet_size, not an
+                        \*  error of the timer machinery)
+                        \cup V((isTimer /\ o.env.ordered) => o.res \in {"Ok", "Err:Encode"},
                                "handle_timer-error-under-deadline-order-delivery")
                         \cup V(isTimer => o.res \in {"Ok", "Err:IncompleteProbeCycle", "Err:Encode"},
                                "handle_timer-error-other-than-IncompleteProbeCycle")
